@@ -251,7 +251,7 @@ def r4_slate_bt(ctx):
     ctx.check(good, p, succ or p.node, "success = number of (own-bloc position, later other-bloc position) pairs", astx.u(succ)[:100] if succ is not None else "",
               "the success count is not sum over own positions of later other-bloc positions")
     tot = astx.unique_def(f.node, "total_comparisons")
-    good = tot is not None and astx.u(tot.func) in ("np.prod", "math.prod") and \
+    good = isinstance(tot, ast.Call) and tot.args and astx.u(tot.func) in ("np.prod", "math.prod") and \
         astx.u(tot.args[0]) == astx.A(f"[len(interval.non_zero_cands) for interval in self.pref_intervals_by_bloc[{bloc}].values()]")
     ctx.check(good, f, tot or f.node, "total = product of the (non-zero) slate sizes in the voter bloc's view", "", "total_comparisons changed")
     coh = astx.unique_def(f.node, "cohesion")
